@@ -34,9 +34,10 @@ impl<H: Hal, T: Transport> VirtIO9p<H, T> {
             features.contains(Feature::RING_EVENT_IDX),
             features.contains(Feature::ACCESS_PLATFORM),
         )?;
-        transport.finish_init();
-
+        // Read the mount tag before DRIVER_OK: if this fails the queue memory is freed, which must
+        // not happen while the device is live on the queue.
         let mount_tag = read_mount_tag(&transport)?;
+        transport.finish_init();
 
         Ok(Self {
             transport,
